@@ -15,14 +15,14 @@ COMMON_NOTE = (
 NOTES = {
     "C01": ("Verus proves, for signer sets of any size, on the mechanically extracted validate_proof / validate_signatures / message_hash_to_sign / weighted_signers / hash: soundness (Ok => registered retained set, quorum of valid signatures over keccak(domain||set hash||data hash)) and completeness (any sufficiently heavy subset of honest signatures is accepted, no trap). Kani proves on the unmodified contract.rs that approve_messages / validate_proof (entry) ask exactly that verdict over keccak(xdr((ApproveMessages, batch))) before any effect and propagate refusal. The approve loop is bounded (0,1,2 messages).",
             "contract-based deductive verification: Verus (unbounded loops, extracted functions) + Kani function-contract harnesses with contract stubs on the real source"),
-    "C02": ("Kani: validate_message consumes iff the stored record is Approved(hash of the exact message for this caller), marks Executed, one event, frame; queries agree with storage; approve step (bounded 1,2 messages incl. in-batch duplicate) never touches a known id; a syntactic writer-frame scan shows no other function writes MessageApproval. Monotonicity for every history follows by induction from these step contracts over an arbitrary pre-state.",
-            "Kani function-contract harnesses over arbitrary pre-state (lazy symbolic storage) + writer-frame scan"),
+    "C02": ("Kani: validate_message consumes iff the stored record is Approved(hash of the exact message for this caller), marks Executed, one event, frame; queries agree with storage; approve step (bounded 1,2 messages incl. in-batch duplicate) never touches a known id; a syntactic writer-frame scan shows no other function writes MessageApproval. The history clause (status only moves forward, approved content never changes, consumed at most once) is a Verus-checked induction (verus/lemmas.rs) over a hand-transcribed step relation made of exactly these obligations.",
+            "Kani function-contract harnesses over arbitrary pre-state (lazy symbolic storage) + writer-frame scan + Verus history lemma"),
     "C03": ("Verus: validate_signers Ok => well-formed (any size). Kani: auth::rotate_signers Ok => validated first, epoch+1, both lookups written for keccak(xdr(set)), never installed before, one event, frame; the epoch<->set inverse-lookup invariant is preserved (arbitrary-witness encoding); the entry point binds the proof to (RotateSigners, this set), needs latest-or-bypass, operator auth for bypass. Construction (initialize_auth) is bounded (0,1,2 initial sets of any size).",
             "Verus loop invariant + Kani contracts with callee stubs and an inductive storage invariant"),
     "C04": ("Kani, modularly: execute consumes the gateway approval for exactly (service, chain, id, source address, keccak(payload)) first and only then runs execute_message; get_execute_params accepts only hub chain + ReceiveFromHub + trusted origin (codec replaced by its contract); each arm of execute_message performs exactly one credit / one deployment+registration with the decoded values. KNOWN FINDING: the hub address is never compared (C04.hub_address_checked).",
             "Kani function-contract harnesses, callee contracts as stubs (codec contract assumed from C10)"),
-    "C05": ("Kani: interchain_transfer takes exactly the positive amount on the registered token (burn / custody transfer), announces exactly that via pay_gas_and_call_contract (stubbed by its contract), which in turn is proved to pay gas from the caller and call the gateway with the same SendToHub payload only for a trusted destination; inbound arm credits exactly the announced amount; take/give_token exact. The custody / supply equations over histories are the sum of these per-step contracts and the token contract (C12, included) — the summation itself is an argument in DESIGN.md, not a machine-checked lemma.",
-            "Kani function-contract harnesses; history-level conservation by (unmechanised) induction over the proved step contracts"),
+    "C05": ("Kani: interchain_transfer takes exactly the positive amount on the registered token (burn / custody transfer), announces exactly that via pay_gas_and_call_contract (stubbed by its contract), which in turn is proved to pay gas from the caller and call the gateway with the same SendToHub payload only for a trusted destination; inbound arm credits exactly the announced amount; take/give_token exact. The custody equation over histories (custody = locked - released >= 0) is a Verus-checked induction (verus/lemmas.rs) over a hand-transcribed step relation made of these per-step obligations and the token contract (C12, included).",
+            "Kani function-contract harnesses + Verus history lemma over the proved step contracts"),
     "C06": ("Kani, one harness per administrative entry point of every contract (real derive-generated code): returns only if the role holder stored at entry is in the require_auth log, before any write; transfers store exactly the successor and name (previous, new).",
             "Kani function-contract harnesses with an authorisation oracle (all principals at once)"),
     "C07": ("Kani, one harness per spending / burning / sending / consuming / deploying / forwarding entry point: returns only if the address named in the arguments is in the require_auth log, before the effect; delegated operations debit `from` against the allowance of exactly (from, spender).",
@@ -31,15 +31,15 @@ NOTES = {
             "Verus (both directions) + Kani contracts on the entry points"),
     "C09": ("Kani, full domain: update_rotation_timestamp refuses exactly when enforcing and now-last < minimum; every success restarts the clock; rotate_signers forwards enforce == !bypass; bypass needs the operator.",
             "Kani function-contract harnesses (loop-free, full-domain symbolic inputs: complete)"),
-    "C10": ("PARTIAL. Decided for all inputs: to_i128 (accept <=> value <= i128::MAX, exact value), get_message_type on every 32-byte head (accept <=> canonical padding and tag 0..4) and on short input, the tag values written, optional-byte-field mapping (absent <-> empty; bounded content length), and that every alloy decode call site passes validate=true (scan). NOT decided: byte-exactness of alloy-sol-types' abi_encode_params / abi_decode_params themselves (third-party generic code; symbolic decoding does not terminate in CBMC) — carried as assumed contract A-ALLOY.",
-            "Kani on the codec's own helper functions (full domain) + syntactic call-site scan; alloy's codec assumed"),
+    "C10": ("PARTIAL. Decided for all inputs: to_i128 (accept <=> value <= i128::MAX, exact value), get_message_type on every 32-byte head (accept <=> canonical padding and tag 0..4) and on short input, the tag values written, optional-byte-field mapping (absent <-> empty; bounded content length), and that every alloy decode call site passes validate=true (scan). NOT decided deductively: byte-exactness and canonical-only acceptance of alloy-sol-types' abi_encode_params / abi_decode_params (third-party generic code; does not terminate in CBMC) — carried as assumed contract A-ALLOY, with a BOUNDED stand-in that is not counted as proved: a sampled differential test of the real codec on the real host against an independent ABI encoder (replay/codec.py: 300/5000 random messages, field lengths <= 70, ~110 corrupted inputs each). KNOWN FINDING from it: a length word in [2^64-32, 2^64-1] makes the decoder panic instead of returning Err.",
+            "Kani on the codec's own helper functions (full domain) + syntactic call-site scan; alloy's codec assumed, with a bounded sampled differential test on the real host as stand-in"),
     "C11": ("Kani: the three id derivations equal independently written keccak/xdr terms and never collide; deploy_interchain_token / register_canonical_token / remote-deploy arm write the registry once for a free id, deploy at the address derived from (service, id) with (owner = service, designated minter, id, metadata), credit the initial supply to the deployer; token constructor gives minting rights to owner and designated minter only. KNOWN FINDING: ITS revokes its own minter role when initial_supply>0 and a minter is given (C11.its_remains_minter).",
             "Kani function-contract harnesses; deploy_v2 modelled by axiom A-DEPLOY"),
     "C12": ("Kani on every token entry point with symbolic balances / allowances / ledger: exact amounts, non-negativity preserved, frames (supply changes only by mint/burn), expiry boundary in both directions, events naming the true parties; honest transfers / delegated transfers are accepted (no-trap mode).",
             "Kani function-contract harnesses, safety and no-trap modes"),
     "C13": ("Kani: call_contract returns only under the sender's auth, emits exactly one contract_called event with keccak256(payload) and the payload, writes nothing.", "Kani function-contract harness (complete: loop-free, full domain)"),
-    "C14": ("Kani: pay_gas / add_gas need a positive amount and the spender's auth and make exactly one transfer spender->service; collect_fees / refund need the stored collector's auth, never exceed the reported balance (collect_fees), one transfer service->receiver; one event each; nothing else moves funds. The balance equation over histories is the sum of these step contracts and the token's (C12 / assumed standard for foreign tokens).",
-            "Kani function-contract harnesses; balance equation by induction over the proved steps"),
+    "C14": ("Kani: pay_gas / add_gas need a positive amount and the spender's auth and make exactly one transfer spender->service; collect_fees / refund need the stored collector's auth, never exceed the reported balance (collect_fees), one transfer service->receiver; one event each; nothing else moves funds. The balance equation over histories (balance = paid in - paid out >= 0) is a Verus-checked induction (verus/lemmas.rs) over a hand-transcribed step relation of these obligations and the token's transfer contract (C12 / assumed standard for foreign tokens).",
+            "Kani function-contract harnesses + Verus history lemma"),
     "C15": ("Kani on the real derive-generated upgrade/migrate of all five upgradable contracts and on Upgrader::upgrade: owner auth first, window opened by upgrade, migrate only while open and closes it, one upgraded event; Upgrader: exactly version, upgrade, migrate, version and Err unless the final version is the requested different one.",
             "Kani function-contract harnesses"),
     "C16": ("Kani: the default validate_message (on a minimal app) is Ok iff gateway.validate_message(app, same ids, keccak(payload)) returned true; Example::execute acts only after that (defect found and fixed: it ignored the result); exactly-once is the gateway's C02 contract.",
